@@ -1212,6 +1212,35 @@ def cause_undefined_conditional(payload):
     return False
 
 
+def cause_undefined_read_simplified_away(payload):
+    """UndefinedInitialNumericRemover requires `is_value_defined_f` for EVERY syntactic occurrence of a numeric fluent without
+    initial value in a precondition / effect value / effect condition; the original semantics grounds and SIMPLIFIES an action
+    before evaluating it, so an occurrence that simplification removes (`TRUE or x <= 1`, `x - x`, `0 * x`) is never read there:
+    the original action applies, the compiled one does not"""
+    if "uin" not in chain(payload[1]):
+        return False
+    ps = payload[3]
+    undef = set()
+    for ref, d in upp.get(ps, "fluents"):
+        if d == "_" and isinstance(ref[1], list) and ref[1][0] in ("int", "real"):
+            undef.add(ref[0])
+    if not undef:
+        return False
+    try:
+        P, _ = upp.build_problem(ps)
+    except Exception:
+        return False
+    fve = P.environment.free_vars_extractor
+    for a in P.actions:
+        exprs = list(a.preconditions) + [e.value for e in a.effects] + [e.condition for e in a.effects]
+        for e in exprs:
+            before = {f.fluent().name for f in fve.get(e)} & undef
+            after = {f.fluent().name for f in fve.get(e.simplify())} & undef
+            if before - after:
+                return True
+    return False
+
+
 def cause_coinciding_values(payload):
     """D-C07b: some step of the uncovered original plan assigns one non-Boolean ground fluent by >= 2 fired effects
     (necessarily the same value): the effects conflict statically, so the grounder / the conditional-effects remover
